@@ -30,7 +30,7 @@ ANCHORS = [
     ("tangelo/toolboxes/operators/multiformoperator.py", "from_qubitop,__mul__,collapse", "integer/binary encodings, phase table, duplicate collapse"),
     ("tangelo/toolboxes/operators/multiformoperator.py", "do_commute", "symplectic commutation test"),
 ]
-REQUIRED = {"live_observations_total": 5, "fermion_value": 196, "fermion_operands_unchanged": 300, "qubit_value": 111, "qubit_operands_unchanged": 200, "chain_shadow": 200, "hamiltonian_with_plain_operator": 17, "multiform_product": 60, "multiform_collapse": 60, "do_commute": 64, "do_commute_term_resolved": 64}
+REQUIRED = {"multiform_history": 60, "live_observations_total": 5, "fermion_value": 196, "fermion_operands_unchanged": 300, "qubit_value": 111, "qubit_operands_unchanged": 200, "chain_shadow": 200, "hamiltonian_with_plain_operator": 17, "multiform_product": 60, "multiform_collapse": 60, "do_commute": 64, "do_commute_term_resolved": 64}
 BUDGET = {"quick": 240, "thorough": 2400}
 TOL = 1e-9
 NM = 3   # fermionic modes for dense algebra (8x8)
@@ -44,6 +44,7 @@ def cases(tier, seed):
     out += [{"sub": "qubit", "i": i} for i in range(n)]
     out += [{"sub": "multiform", "i": i} for i in range(n)]
     out += [{"sub": "multiform_wide", "i": i} for i in range(n // 2)]
+    out += [{"sub": "multiform_history", "i": i} for i in range(n // 2)]
     return out
 
 
@@ -157,7 +158,20 @@ def run_fermion(case, ctx):
         log.append([opname, ia, ib, s if "s" in opname.replace("==", "") else None])
         wit = lambda: {"pool": [[k, [[list(map(list, t)), c] for t, c in pt.items()]] for k, pt in zip(kinds, pool_terms)],
                        "attrs": attrs, "log": log}
-        if opname in ("a==b", "a!=b"):
+        if opname in ("s*a", "a*s", "a/s") and kinds[ia] == "tangelo" and pr.random() < 0.3:
+            # symbolic scalar (openfermion accepts sympy expressions as coefficients): value checked after substituting a number
+            import sympy
+            t = sympy.Symbol("t")
+            t0 = 0.7
+            log[-1][-1] = "sympy:t"
+            r = t * a if opname == "s*a" else (a * t if opname == "a*s" else a / t)
+            num = type(r)()
+            for term, c in r.terms.items():
+                num.terms[term] = complex(sympy.N(sympy.sympify(c).subs(t, t0)))
+            exp = shadow[ia] / t0 if opname == "a/s" else t0 * shadow[ia]
+            ctx.check("fermion_value", refsim.dist(fmat(num), exp) < 1e-8, f"result of {opname} with a symbolic scalar is not the algebraically correct operator", wit)
+            ctx.tab("scalar_kind", "sympy")
+        elif opname in ("a==b", "a!=b"):
             try:
                 r = (a == b) if opname == "a==b" else (a != b)
             except TypeError:
@@ -478,6 +492,78 @@ def run_multiform_wide(case, ctx):
     ctx.nontrivial(("multiform_wide", n, case["i"]))
 
 
+def run_multiform_history(case, ctx):
+    """A MultiformOperator that is modified through the symbolic in-place operations it inherits, re-synchronised with compress(), and
+    then used in array-form products / commutation tests.  After every compress() the array forms must describe the same operator as
+    the terms, and the product must be the matrix product."""
+    from tangelo.toolboxes.operators import QubitOperator as TQ
+    from tangelo.toolboxes.operators.multiformoperator import MultiformOperator, do_commute
+    rng, pr, sd = case_rng(ctx.seed, "C16", "multiform_history", case["i"])
+    n = pr.randint(2, 5)
+    ta = gen.random_qubit_terms(pr, n, pr.randint(2, 5), complex_coeffs=pr.random() < 0.3, identity=False)
+    tc = gen.random_qubit_terms(pr, n, pr.randint(1, 4), complex_coeffs=False)
+    qa, qc = gen.to_qubit_operator(ta), gen.to_qubit_operator(tc)
+    if not qa.terms or not qc.terms:
+        return
+    a = MultiformOperator.from_qubitop(qa, n)
+    c = MultiformOperator.from_qubitop(qc, n)
+    shadow = qmatop(qa, n)
+    C = qmatop(qc, n)
+    log = [["init", [[list(map(list, t)), v] for t, v in gen.terms_of(qa).items()]]]
+    for _ in range(pr.randint(2, 6)):
+        op = pr.choice(["imul_word", "swap_words", "scale", "iadd"])
+        if op == "imul_word":
+            w = tuple((q, pr.choice("XYZ")) for q in sorted(pr.sample(range(n), pr.randint(1, n))))
+            a *= MultiformOperator.from_qubitop(TQ(w, 1.0), n)
+            shadow = shadow @ refsim.pauli_word_matrix(w, n)
+            log.append(["*= word", list(map(list, w))])
+        elif op == "swap_words":
+            # remove one word, add another one: the number of terms and of qubits stays the same
+            old = pr.choice(sorted(a.terms))
+            new = tuple((q, pr.choice("XYZ")) for q in sorted(pr.sample(range(n), pr.randint(1, n))))
+            if new in a.terms or not old:
+                continue
+            co = a.terms[old]
+            a -= MultiformOperator.from_qubitop(TQ(old, co), n)
+            a += MultiformOperator.from_qubitop(TQ(new, 0.5), n)
+            shadow = shadow - co * refsim.pauli_word_matrix(old, n) + 0.5 * refsim.pauli_word_matrix(new, n)
+            log.append(["-= word; += word", list(map(list, old)), list(map(list, new))])
+        elif op == "scale":
+            f = pr.choice([2.0, -0.5, 1.5])
+            a *= f
+            shadow = f * shadow
+            log.append(["*= scalar", f])
+        else:
+            extra = gen.to_qubit_operator(gen.random_qubit_terms(pr, n, pr.randint(1, 2), identity=False))
+            a += MultiformOperator.from_qubitop(extra, n)
+            shadow = shadow + qmatop(extra, n)
+            log.append(["+= operator", [[list(map(list, t)), v] for t, v in gen.terms_of(extra).items()]])
+        a.compress(n_qubits=n) if pr.random() < 0.5 else a.compress()
+        log.append(["compress"])
+        if not a.terms or a.n_qubits != n:
+            break
+        wit = lambda: {"n": n, "log": log, "C": [[list(map(list, t)), v] for t, v in gen.terms_of(qc).items()]}
+        ok_terms = refsim.dist(qmatop(a, n), shadow) < 1e-8
+        rt = MultiformOperator.from_integerop(a.integer, a.factors)
+        ok_arrays = refsim.dist(qmatop(rt, n), shadow) < 1e-8
+        ctx.check("multiform_history", ok_terms and ok_arrays,
+                  "after in-place symbolic operations and compress() the array form (integer words x factors) is not the operator the terms describe",
+                  lambda: dict(wit(), terms_ok=ok_terms, arrays_ok=ok_arrays))
+        left = pr.random() < 0.5
+        prod = (a * c) if left else (c * a)
+        expm = shadow @ C if left else C @ shadow
+        ctx.check("multiform_product", refsim.dist(qmatop(prod, n), expm) < 1e-8,
+                  "array-form product after in-place symbolic operations + compress() is not the matrix product", lambda: dict(wit(), a_on_the_left=left))
+        res = do_commute(a, c, term_resolved=True)
+        exp_res = [all(term_commutes(x, y) for y in c.terms) for x in a.terms]
+        ctx.check("do_commute_term_resolved", list(map(bool, res)) == exp_res,
+                  "do_commute(term_resolved=True) after in-place symbolic operations + compress() differs from the word-by-word rule", wit)
+        if not (ok_terms and ok_arrays):
+            break
+    ctx.nontrivial(("multiform_history", n, repr(log)))
+    ctx.sample({"sub": "multiform_history", "n": n, "steps": len(log)})
+
+
 def run_repo_tests(case, ctx):
     """The repository's own operator / ansatz tests as an additional workload for the operand-snapshot monitors."""
     from vlib.harness import run_repo_tests_under_monitors
@@ -494,4 +580,4 @@ def run_repo_tests(case, ctx):
 
 
 def run_case(case, ctx):
-    {"fermion": run_fermion, "qubit": run_qubit, "multiform": run_multiform, "multiform_wide": run_multiform_wide, "repo_tests": run_repo_tests}[case["sub"]](case, ctx)
+    {"fermion": run_fermion, "qubit": run_qubit, "multiform": run_multiform, "multiform_wide": run_multiform_wide, "multiform_history": run_multiform_history, "repo_tests": run_repo_tests}[case["sub"]](case, ctx)
